@@ -201,6 +201,11 @@ fn mini(args: &Args, report: &mut Report) {
             let k = format!("s{i}").into_bytes();
             store.insert(&k, &values::make(Tag { key_id: i, writer: 0, seq: 0 }, 40)).unwrap();
         }
+        // the background sweeper samples and removes expired generations while the scanners hold them; the clock
+        // is pushed past every 1 s / 5 s expiry half way through
+        if args.get("sweeper").is_some() {
+            store.start_ttl_sweeper(Some(feoxdb::core::ttl_sweep::TtlConfig { sample_size: 8, expiry_threshold: 0.05, max_iterations: 4, max_time_per_run: std::time::Duration::from_millis(5), sleep_interval: std::time::Duration::from_millis(1), enabled: true }));
+        }
         let mut hs = Vec::new();
         for t in 0..3u64 {
             let s = store.clone();
@@ -209,6 +214,9 @@ fn mini(args: &Args, report: &mut Report) {
                 let mut bad = 0u64;
                 for i in 0..ops {
                     let k = format!("s{}", rng.below(8)).into_bytes();
+                    if t == 1 && i == ops / 2 {
+                        feoxdb::verif::advance_clock_ns(6_000_000_000);
+                    }
                     match (t, rng.below(6)) {
                         (0, _) => {
                             if let Ok(r) = s.range_query(b"s0", b"s9", 100) {
@@ -231,12 +239,37 @@ fn mini(args: &Args, report: &mut Report) {
                         (_, 3) => {
                             let _ = s.atomic_increment(b"ctr", 1);
                         }
-                        (_, 4) => {
-                            let _ = s.update_ttl(&k, 5);
-                        }
-                        _ => {
-                            let _ = s.insert(&k, &values::make(Tag { key_id: 1, writer: t as u16, seq: i }, 60));
-                        }
+                        (_, 4) => match i % 4 {
+                            0 => {
+                                let _ = s.update_ttl(&k, 5);
+                            }
+                            1 => {
+                                let _ = s.persist(&k);
+                            }
+                            2 => {
+                                let _ = s.get_bytes(&k);
+                            }
+                            _ => {
+                                let _ = s.insert_if_absent(&k, &values::make(Tag { key_id: 1, writer: t as u16, seq: i }, 44));
+                            }
+                        },
+                        _ => match i % 4 {
+                            0 => {
+                                if let Ok(cur) = s.get(&k) {
+                                    let _ = s.compare_and_swap(&k, &cur, &values::make(Tag { key_id: 1, writer: t as u16, seq: i }, 52));
+                                }
+                            }
+                            1 => {
+                                let _ = s.insert(b"doc", br#"{"l":[1]}"#);
+                                let _ = s.json_patch(b"doc", br#"[{"op":"add","path":"/l/-","value":2}]"#);
+                            }
+                            2 => {
+                                let _ = s.insert_bytes(&k, bytes::Bytes::from(values::make(Tag { key_id: 1, writer: t as u16, seq: i }, 70)));
+                            }
+                            _ => {
+                                let _ = s.insert(&k, &values::make(Tag { key_id: 1, writer: t as u16, seq: i }, 60));
+                            }
+                        },
                     }
                 }
                 bad
